@@ -186,6 +186,92 @@ theorem ok_setOffsets (c : SRR) (hc : c.ok = true) (o : List (Int × Int)) (hne 
   · simp only [SRR.setOffsets]
     simpa using hne
 
+/-! ## configuration operations -/
+
+/-- no attribute assignment or mutator call changes the class of the configuration -/
+theorem apply_isSRR (fl : Rat → Rat) (c c' : Config) (o : CfgOp) (h : c.apply fl o = .ok c') : c'.isSRR = c.isSRR := by
+  cases c with
+  | raster a b d =>
+    cases o <;> simp [Config.apply] at h <;> (try (cases h; rfl))
+  | spot a b =>
+    cases o <;> simp [Config.apply] at h <;> (try (cases h; rfl))
+  | srr s =>
+    cases o with
+    | scantime f =>
+      simp only [Config.apply] at h
+      split at h
+      · split at h
+        · cases h; rfl
+        · cases h
+      · cases h
+    | offsets ofs =>
+      simp only [Config.apply] at h
+      split at h
+      · cases h
+      · cases h; rfl
+    | equalOffsets w =>
+      simp only [Config.apply] at h
+      split at h
+      · cases h
+      · cases h; rfl
+    | _ => simp [Config.apply] at h <;> (try (cases h; rfl))
+
+/-- every configuration operation but the warm-up setter keeps the configuration inside the quantifier
+(offset lists with non-zero sizes); the warm-up setter does when it sets at most 2⁵⁰ samples -/
+theorem apply_ok (fl : Rat → Rat) (c c' : Config) (hc : c.ok = true) (o : CfgOp) (h : c.apply fl o = .ok c')
+    (ho : match o with
+      | .offsets ofs => ∀ od ∈ ofs, od.2 ≠ 0
+      | .warmup s => ∀ r, c = .srr r → (roundHalfEven (fl (s / r.scantime))).natAbs ≤ 2 ^ 50
+      | _ => True) : c'.ok = true := by
+  cases c with
+  | raster a b d =>
+    cases o <;> simp [Config.apply] at h <;> (try (cases h; rfl))
+  | spot a b =>
+    cases o <;> simp [Config.apply] at h <;> (try (cases h; rfl))
+  | srr r =>
+    have hr : r.ok = true := hc
+    cases o with
+    | spotsize f =>
+      simp only [Config.apply, pure, Except.pure, Except.ok.injEq] at h; subst h
+      simpa [Config.ok, SRR.ok] using hr
+    | speed f =>
+      simp only [Config.apply, pure, Except.pure, Except.ok.injEq] at h; subst h
+      simpa [Config.ok, SRR.ok] using hr
+    | spotsizeY f => simp [Config.apply] at h
+    | scantime f =>
+      simp only [Config.apply] at h
+      split at h
+      · rename_i q _
+        split at h
+        · rename_i hq
+          simp only [pure, Except.pure, Except.ok.injEq] at h; subst h
+          simp only [SRR.ok, Bool.and_eq_true, decide_eq_true_eq, Bool.not_eq_true', List.isEmpty_eq_false_iff] at hr
+          simp only [Config.ok, SRR.ok, Bool.and_eq_true, decide_eq_true_eq, Bool.not_eq_true', List.isEmpty_eq_false_iff]
+          exact ⟨⟨⟨hq, hr.1.1.2⟩, hr.1.2⟩, hr.2⟩
+        · cases h
+      · cases h
+    | warmup s =>
+      simp only [Config.apply, pure, Except.pure, Except.ok.injEq] at h; subst h
+      have hb := ho r rfl
+      simp only [SRR.ok, Bool.and_eq_true, decide_eq_true_eq, Bool.not_eq_true', List.isEmpty_eq_false_iff] at hr
+      show SRR.ok (r.setWarmup fl s) = true
+      simp only [SRR.ok, SRR.setWarmup, Bool.and_eq_true, Bool.not_eq_true', List.isEmpty_eq_false_iff]
+      exact ⟨⟨⟨decide_eq_true hr.1.1.1, decide_eq_true hr.1.1.2⟩, hr.1.2⟩, decide_eq_true hb⟩
+    | offsets ofs =>
+      simp only [Config.apply] at h
+      split at h
+      · cases h
+      · rename_i hne
+        simp only [pure, Except.pure, Except.ok.injEq] at h; subst h
+        exact ok_setOffsets r hr ofs hne ho
+    | equalOffsets w =>
+      simp only [Config.apply] at h
+      split at h
+      · cases h
+      · rename_i hw
+        simp only [pure, Except.pure, Except.ok.injEq] at h; subst h
+        exact ok_setEqualOffsets r hr w (by omega)
+
 /-! ## the warm-up setter -/
 
 /-- when the exact quotient is at most 2⁴⁰ in size and at least 2⁻¹⁰ away from every half-integer, the
